@@ -97,7 +97,7 @@ class BasicEmbeddingsIndex(EmbeddingsIndex):
         self._req_idx = 0
         self._current_batch_finished_event = None
         self._current_batch_full_event = None
-        self._current_batch_submitted = asyncio.Event()
+        self._current_batch_submitted = None
 
         # Initialize the batching configuration
         self.use_batching = use_batching
@@ -247,7 +247,8 @@ class BasicEmbeddingsIndex(EmbeddingsIndex):
         if self._current_batch_finished_event is None:
             self._current_batch_finished_event = asyncio.Event()
             self._current_batch_full_event = asyncio.Event()
-            self._current_batch_submitted.clear()
+            # (created per batch, in the event loop that uses it)
+            self._current_batch_submitted = asyncio.Event()
             asyncio.ensure_future(self._run_batch())
 
         # We check if we reached the max batch size
